@@ -34,6 +34,7 @@ func runC14(r *engine.Run) {
 	r.Rule("AGREE-hash", "see C02: the node hash is RawHash(little-endian origin || the node's persisted fields) computed from the node's current content on every call (a memoised hash survives a change of origin)")
 	r.Rule("DOM-size", "see C01: Insert stores a private snapshot of the marshalled value")
 	r.Rule("CLONE-deep", "see C07: Clone() of every node type is a deep copy (the codec round trip), never a value that shares path/key/value memory with the receiver - FRESH-node treats Clone() results as fresh, and an in-place append onto a shallow copy writes into the store's object")
+	r.Rule("DOM-cancel", "see C05: AddChange removes the new node's hash from the dead set on every path (a chain A -> B -> A that leaves A listed as deleted makes a save with deletes, or a merge into the parent, remove a node the saved root refers to: the trie read back no longer re-computes to its root)")
 	r.NotDec = append(r.NotDec, "byte-exact round trip for every value (value-level)")
 	orderStamp(r, "KEY-own-hash")
 	keyOwnHash(r)
@@ -50,6 +51,7 @@ func runC14(r *engine.Run) {
 	agreeHash(r, "AGREE-hash")
 	domSize(r)
 	cloneDeep(r)
+	domCancel(r)
 }
 
 func keyOwnHash(r *engine.Run) {
